@@ -358,7 +358,9 @@ func c26R4(c *engine.Ctx, do *ssa.Function, doSel *ssa.Select) {
 		})
 		c.Check(ok, "C26.R4", "Do/early-return#"+ordinal(do, r)+"/not-on-context-end", r.Pos(), "Do may return straight after retryUntilAck only when the error is not the retry context's own error (errors.Is(err, retryCtx.Err()) == false); a context that ended after the send must reach the drop decision")
 	}
-	c.Floor("C26.R4", 4, n)
+	// one drop site, at least one return of the cancel case, the early return
+	// (today's tree has three returns in the cancel case; a single merged one is the same behaviour)
+	c.Floor("C26.R4", 3, n)
 	// wiring in mtproto: DropHandler is Conn.dropRPC which drops req.MsgID
 	if dr := c.MustFunc("C26.R4", "mtproto", "Conn.dropRPC"); dr != nil {
 		ok := false
